@@ -433,7 +433,7 @@ class Merger:
                     Nodes.append_list_element(lhs, ele,
                         ele.anchor.value if hasattr(ele, "anchor") else None)
             elif merge_mode is AoHMergeOpts.UNIQUE:
-                if ele not in lhs:
+                if not any(Merger._same_value(e, ele) for e in lhs):
                     Nodes.append_list_element(
                         lhs, ele,
                         ele.anchor.value if hasattr(ele, "anchor") else None)
